@@ -1,12 +1,12 @@
 (* C11 — in-memory serialisation round trips preserve content in every history.  Property theorems only. *)
 From Coq Require Import ZArith List Bool Arith String.
 Import ListNotations.
-From TD Require Import Model.C11_Layout Model.C11_Tree Model.C11_Formats Proofs.C11_LayoutP.
+From TD Require Import Model.C11_Layout Model.C11_Tree Model.C11_Formats
+  Proofs.C11_LayoutP Proofs.C11_TreeP Proofs.C11_HistP Proofs.C11_WriteP Proofs.C11_FormatsP Proofs.C11_ReorderP.
 Open Scope nat_scope.
 
-(* ---------------------------------------------------------------- the byte layout (for ALL leaf lists, any padding unit) *)
-(* segments are consecutive from 0, each within [0, total), pairwise disjoint, and cover [0, total); the storage that
-   consolidate() fills has exactly `total` bytes *)
+(* ================================================================= 1. the byte layout (ALL leaf lists, any padding unit) *)
+(* segments are consecutive from 0, each inside [0, total), pairwise disjoint, and cover [0, total) *)
 Theorem C11_layout_disjoint_cover : forall A np (ls : list lspec),
   let L := layout_from A np 0 ls in
   List.length L = List.length ls
@@ -18,3 +18,203 @@ Theorem C11_layout_disjoint_cover : forall A np (ls : list lspec),
   /\ (forall x, x < total A np ls -> exists i sg, nth_error L i = Some sg /\ s_start sg <= x < s_stop sg).
 Proof. exact layout_disjoint_cover. Qed.
 Print Assumptions C11_layout_disjoint_cover.
+
+(* the storage consolidate() fills has exactly `total` bytes *)
+Theorem C11_storage_size : forall A np ls, Forall wf_leaf ls -> List.length (encode A np ls) = total A np (map spec_of ls).
+Proof. exact encode_length. Qed.
+Print Assumptions C11_storage_size.
+
+(* alignment: `.view(dtype)` needs start mod element_size = 0.  FALSE of the code as it is (padding unit 8, 16-byte elements) *)
+Definition C11_layout_aligned_full_statement : Prop := aligned_statement 8.
+Theorem C11_layout_aligned_refuted : ~ aligned_statement 8.
+Proof. exact layout_aligned_refuted. Qed.
+Print Assumptions C11_layout_aligned_refuted.
+
+(* ... true for every element size that divides the padding unit (1, 2, 4, 8 today; also 16 once the unit is 16) *)
+Theorem C11_layout_aligned_partial : forall A ls, 0 < A -> forall i sg l,
+  nth_error (layout_from A true 0 ls) i = Some sg -> nth_error ls i = Some l ->
+  0 < sp_esz l -> Nat.divide (sp_esz l) A -> s_start sg mod sp_esz l = 0.
+Proof. exact layout_aligned_partial. Qed.
+Print Assumptions C11_layout_aligned_partial.
+
+(* ... and without padding when all leaves share one element size *)
+Theorem C11_layout_aligned_uniform : forall A e ls, 0 < e -> Forall (fun l => sp_esz l = e) ls -> forall i sg,
+  nth_error (layout_from A false 0 ls) i = Some sg -> s_start sg mod e = 0.
+Proof. exact layout_aligned_uniform. Qed.
+Print Assumptions C11_layout_aligned_uniform.
+
+(* decode . encode on bytes and shapes: every leaf comes back exactly when its record is aligned, and the view fails otherwise *)
+Theorem C11_decode_encode_bytes : forall A np ls i l sg,
+  Forall wf_leaf ls -> nth_error ls i = Some l ->
+  nth_error (layout_from A np 0 (map spec_of ls)) i = Some sg ->
+  flat_size A np (spec_of l) mod l_esz l = 0 ->
+  decode_leaf (encode A np ls) (l_dt l) (l_esz l) (l_shape l) sg
+  = if s_start sg mod l_esz l =? 0 then DOk l else DViewErr.
+Proof. exact decode_encode_leaf. Qed.
+Print Assumptions C11_decode_encode_bytes.
+
+(* the size side condition holds for every element size that divides, or is a multiple of, the padding unit *)
+Theorem C11_size_condition : forall A l, 0 < A -> 0 < l_esz l -> Nat.divide (l_esz l) A \/ Nat.divide A (l_esz l) ->
+  flat_size A true (spec_of l) mod l_esz l = 0.
+Proof. exact size_ok_pad. Qed.
+Print Assumptions C11_size_condition.
+
+(* an in-place write through a view of the storage = re-encoding with the new bytes (nothing else moves) *)
+Theorem C11_write_through : forall A np pre l post b,
+  Forall wf_leaf pre -> List.length b = List.length (l_bytes l) ->
+  splice (encode A np (pre ++ l :: post)) (total A np (map spec_of pre)) b = encode A np (pre ++ set_bytes l b :: post).
+Proof. exact splice_encode. Qed.
+Print Assumptions C11_write_through.
+
+(* ================================================================= 2. consolidate / consolidated rebuild on trees *)
+(* consolidate(): same keys, order, tensors, non-tensor data, batch sizes, names, device -- but never locked (D110) *)
+Theorem C11_consolidate_content : forall A np t st, tree_side A np t -> consolidate_tree A np false t = Ok st ->
+  unview_t (cur st) = setlock_t false (unview_t t).
+Proof. exact consolidate_content. Qed.
+Print Assumptions C11_consolidate_content.
+
+(* the consolidated rebuild of (metadata, storage) of ANY well-formed aligned tree, at any depth, inside any storage:
+   the tree itself, every tensor a view at its offset, re-locked as the metadata says, keys regrouped by kind *)
+Theorem C11_rebuild_consolidated : forall A np t pre post pl, Forall wf_leaf pre -> no_reserved_t t = true ->
+  side A np (total A np (lspecs pre)) (flat t) ->
+  rebuild_t (encode A np (pre ++ flat t ++ post)) pl (fst (meta_t A np t (total A np (lspecs pre))))
+  = Ok (reorder_t (relock_t pl (fst (mark_t A np t (total A np (lspecs pre)))))).
+Proof. intros A np. exact (proj1 (rebuild_ok A np)). Qed.
+Print Assumptions C11_rebuild_consolidated.
+
+Theorem C11_consolidate_16byte_refuted :
+  wf_t t_d11 = true /\ no_reserved_t t_d11 = true /\ sizes_ok 8 true (flat t_d11) = true /\
+  consolidate_tree 8 true false t_d11 = Raised EView.
+Proof. exact consolidate_16byte_refuted. Qed.
+Print Assumptions C11_consolidate_16byte_refuted.
+
+(* ================================================================= 3. pickle / deepcopy in histories *)
+Definition C11_pickle_history_full_statement : Prop :=
+  forall t ops, tree_side 8 true t ->
+    let st := run {| cur := t; snap := None |} ops in
+    exists st', pickle_roundtrip st = Ok st' /\
+      forall path k, leaf_at (cur st') path k = leaf_at (cur st) path k
+                     /\ option_map meta (sub_at (cur st') path) = option_map meta (sub_at (cur st) path).
+
+(* (a) never consolidated: every history *)
+Theorem C11_pickle_unconsolidated : forall t ops,
+  existsb is_cons ops = false ->
+  let st := run {| cur := t; snap := None |} ops in
+  lock_closed_t (cur st) = true -> pickle_roundtrip st = Ok st.
+Proof. exact pickle_unconsolidated. Qed.
+Print Assumptions C11_pickle_unconsolidated.
+
+(* (b) freshly consolidated, nothing locked: the copy is the consolidated tensordict, keys regrouped *)
+Theorem C11_pickle_fresh_partial : forall A np t st, tree_side A np t -> unlocked_t t = true ->
+  consolidate_tree A np false t = Ok st ->
+  pickle_roundtrip st = Ok {| cur := reorder_t (cur st); snap := snap st |}.
+Proof. exact pickle_fresh_partial. Qed.
+Print Assumptions C11_pickle_fresh_partial.
+
+(* (c) consolidated, then ANY history of in-place writes (set_ / copy_ / update_ at any depth): the writes go through the
+   storage and the copy is the tensordict as it is at the moment of the call *)
+Theorem C11_pickle_inplace_history : forall A np t st0 ws, tree_side A np t -> unlocked_t t = true ->
+  consolidate_tree A np false t = Ok st0 -> forallb is_write ws = true ->
+  let st := run st0 ws in
+  pickle_roundtrip st = Ok {| cur := reorder_t (cur st); snap := snap st |}.
+Proof. exact pickle_inplace_history. Qed.
+Print Assumptions C11_pickle_inplace_history.
+
+(* (d) what the copy of a consolidated tensordict is in general: the SOURCE as it was when consolidate() ran *)
+Theorem C11_pickle_of_consolidated : forall A np tofile t st, tree_side A np t ->
+  consolidate_tree A np tofile t = Ok st ->
+  pickle_roundtrip st = Ok {| cur := reorder_t (relock_t false (fst (mark_t A np t 0))); snap := snap st |}.
+Proof. exact pickle_of_consolidated. Qed.
+Print Assumptions C11_pickle_of_consolidated.
+
+(* (e) the full statement is false (D12): an out-of-place write and a new key after consolidate() are not in the copy *)
+Theorem C11_pickle_after_mutation_refuted :
+  exists t ops, tree_side 8 true t /\
+    let st := run {| cur := t; snap := None |} ops in
+    exists st', pickle_roundtrip st = Ok st' /\
+      leaf_at (cur st) [] "a" = Some (i32 1) /\ leaf_at (cur st') [] "a" = Some (i32 0) /\
+      leaf_at (cur st) [] "c" = Some (i32 1) /\ leaf_at (cur st') [] "c" = None.
+Proof. exact pickle_after_mutation_refuted. Qed.
+Print Assumptions C11_pickle_after_mutation_refuted.
+
+(* (f) lock state: consolidate() drops it, the pickled copy has the source's (D110) *)
+Theorem C11_consolidate_lock_refuted :
+  exists t, tree_side 8 true t /\ m_locked (meta t) = true /\
+    exists st st', consolidate_tree 8 true false t = Ok st /\ m_locked (meta (cur st)) = false /\
+                   pickle_roundtrip st = Ok st' /\ m_locked (meta (cur st')) = true.
+Proof. exact consolidate_lock_refuted. Qed.
+Print Assumptions C11_consolidate_lock_refuted.
+
+(* (g) device after consolidate(filename) (D114) *)
+Theorem C11_file_device_refuted :
+  exists t, tree_side 8 true t /\ m_dev (meta t) = None /\
+    exists st st', consolidate_tree 8 true true t = Ok st /\ m_dev (meta (cur st)) = Some 0 /\
+                   pickle_roundtrip st = Ok st' /\ m_dev (meta (cur st')) = None.
+Proof. exact file_device_refuted. Qed.
+Print Assumptions C11_file_device_refuted.
+
+(* (h) a nested tensordict named like a field of the metadata dict (D115) *)
+Theorem C11_reserved_key_refuted :
+  wf_t t_d115 = true /\ sizes_ok 8 true (flat t_d115) = true /\ aligned_at 8 true 0 (lspecs (flat t_d115)) = true /\
+  exists st st', consolidate_tree 8 true false t_d115 = Ok st /\ pickle_roundtrip st = Ok st' /\
+    leaf_at (cur st) ["size"%string] "a" = Some (i32 2) /\ sub_at (cur st') ["size"%string] = None.
+Proof. exact reserved_key_refuted. Qed.
+Print Assumptions C11_reserved_key_refuted.
+
+(* regrouping the keys changes nothing that is looked up by key *)
+Theorem C11_reorder_lookup : forall t, nodup_t t = true ->
+  forall path k, leaf_at (reorder_t t) path k = leaf_at t path k
+                 /\ option_map meta (sub_at (reorder_t t) path) = option_map meta (sub_at t path).
+Proof. exact reorder_lookup. Qed.
+Print Assumptions C11_reorder_lookup.
+
+(* ================================================================= 4. structural formats, each for the fields it carries *)
+(* to_dict / from_dict(batch_size=bs): keys, nesting, the tensor objects, the non-tensor payloads; every node gets the
+   batch size the caller passes again; no names, no device, no lock state (a dict has no place for them) *)
+Theorem C11_to_dict_from_dict : forall t bs, all_prefix_t bs t = true -> from_dict (to_dict t) bs = Ok (blanked_t bs t).
+Proof. exact to_dict_from_dict. Qed.
+Print Assumptions C11_to_dict_from_dict.
+
+Theorem C11_to_dict_from_dict_coherent : forall t, coherent_t t = true ->
+  from_dict (to_dict t) (m_bs (meta t)) = Ok (blanked_t (m_bs (meta t)) t).
+Proof. exact to_dict_from_dict_coherent. Qed.
+Print Assumptions C11_to_dict_from_dict_coherent.
+
+(* pytree: everything but the lock state *)
+Theorem C11_pytree_roundtrip : forall t, coherent_t t = true -> pt_unflatten (pt_leaves t) (pt_spec t) = Some (setlock_t false t).
+Proof. exact pytree_roundtrip. Qed.
+Print Assumptions C11_pytree_roundtrip.
+
+(* state_dict / load_state_dict into a target like the source: contents and batch sizes arrive; names, lock state and device
+   stay the target's *)
+Theorem C11_state_dict_roundtrip : forall t g, like_t t g = true -> nodup_t g = true ->
+  load_t g (state_dict t) = LDone (merge_t t g).
+Proof. exact state_dict_roundtrip. Qed.
+Print Assumptions C11_state_dict_roundtrip.
+
+(* numpy structured arrays: the packed record is readable back iff every field size divides the record size (D111) *)
+Theorem C11_struct_fields_partial : forall sizes e, Forall (fun s => s = e) sizes -> 0 < e ->
+  forallb (fun s => record_size sizes mod s =? 0) sizes = true.
+Proof. exact struct_fields_partial. Qed.
+Print Assumptions C11_struct_fields_partial.
+
+Theorem C11_struct_fields_refuted : exists sizes, Forall (fun s => 0 < s) sizes /\
+  forallb (fun s => record_size sizes mod s =? 0) sizes = false.
+Proof. exact struct_fields_refuted. Qed.
+Print Assumptions C11_struct_fields_refuted.
+
+(* ================================================================= non-vacuity *)
+Example C11_ex_layout : layout true [ {| sp_esz := 2; sp_shape := [3] |}; {| sp_esz := 8; sp_shape := [2] |}; {| sp_esz := 1; sp_shape := [0; 4] |} ]
+  = [ {| s_start := 0; s_stop := 8; s_pad := 2 |}; {| s_start := 8; s_stop := 24; s_pad := 0 |}; {| s_start := 24; s_stop := 24; s_pad := 0 |} ].
+Proof. reflexivity. Qed.
+
+Definition ex_tree : tree :=
+  Node (m3 false) (FLeaf "z" (i32 7) None (FSub "n" (Node (m3 false) (FNonT "s" 1 [3] (FLeaf "b" (i32 2) None FNil))) (FLeaf "a" (i32 1) None FNil))).
+Example C11_ex_side : tree_side 8 true ex_tree /\ unlocked_t ex_tree = true /\ coherent_t ex_tree = true /\ nodup_t ex_tree = true.
+Proof. repeat split; reflexivity. Qed.
+Example C11_ex_consolidate : exists st, consolidate_tree 8 true false ex_tree = Ok st /\ List.length (sn_storage (match snap st with Some s => s | None => {| sn_meta := MNode m0 [] [] MNil; sn_storage := [] |} end)) = 48.
+Proof. eexists. split; [vm_compute; reflexivity|reflexivity]. Qed.
+Example C11_ex_inplace : forallb is_write [OWrite ["n"%string] "b" (l_bytes (i32 9)); OWrite [] "a" (l_bytes (i32 4))] = true.
+Proof. reflexivity. Qed.
+Example C11_ex_like : like_t ex_tree ex_tree = true /\ nodup_t ex_tree = true.
+Proof. split; reflexivity. Qed.
